@@ -1202,6 +1202,51 @@ class Executor:
         self.fact(z3.ForAll([t], z3.Implies(z3.And(0 <= t, t < seq.n), z3.Select(arr, t) == val)))
         return self.alloc(AList(seq.n, arr, es))
 
+    def ev_DictComp(self, e, env):
+        """{kexpr: vexpr for ... in <symbolic sequence>} (no filter): modelled when the key expression is injective along the
+        sequence (decided here, under the path condition) - the result then has one entry per element, in iteration order."""
+        if len(e.generators) != 1 or e.generators[0].ifs:
+            raise Unsupported("dict comprehension with filter / nested generators")
+        g = e.generators[0]
+        it = self.ev(g.iter, env)
+        conc = self.try_iter_concrete(it)
+        if conc is not None:
+            d = self.alloc(CDict(()))
+            for x in conc:
+                env2 = dict(env)
+                self.bind(g.target, x, env2)
+                self.setitem(d, self.ev(e.key, env2), self.ev(e.value, env2), e)
+            return d
+        seq = self.as_seq(it)
+        t, u = fresh("t"), fresh("u")
+
+        def at(k):
+            env2 = dict(env)
+            self.bind(g.target, seq.elem(k), env2)
+            saved = len(self.pc)
+            self.pc.append(z3.And(0 <= k, k < seq.n))
+            try:
+                return to_int(lift(self.ev(e.key, env2))), lift(self.ev(e.value, env2))
+            finally:
+                del self.pc[saved:]
+        kt, vt_ = at(t)
+        ku, _ = at(u)
+        if not is_z3(vt_) or isinstance(vt_, CVal):
+            raise Unsupported("dict comprehension value not scalar")
+        sv = z3.Solver()
+        sv.set("timeout", 3000)
+        sv.add(*self.pc)
+        sv.add(*self.facts)
+        sv.add(0 <= t, t < seq.n, 0 <= u, u < seq.n, t != u, kt == ku)
+        if sv.check() != z3.unsat:
+            raise Unsupported("dict comprehension: keys not shown to be pairwise distinct along the iteration")
+        vs = "real" if is_real(vt_) else ("bool" if is_bool(vt_) else "int")
+        d = ADict(seq.n, fresh("dc.karr", z3.ArraySort(I, I)), fresh("dc.dom", z3.ArraySort(I, B)), fresh("dc.val", z3.ArraySort(I, sort_of(vs))),
+                  fresh("dc.idx", z3.ArraySort(I, I)), vs)
+        self.fact(*self.wf_dict(d))
+        self.fact(z3.ForAll([t], z3.Implies(z3.And(0 <= t, t < seq.n), z3.And(z3.Select(d.karr, t) == kt, z3.Select(d.val, kt) == vt_))))
+        return self.alloc(d)
+
     def ev_GeneratorExp(self, e, env):
         return ("genexp", e, dict(env))
 
@@ -1435,6 +1480,8 @@ class Executor:
     def find_contract(self, rel, qual, kind="function"):
         key = f"{rel}:{qual}"
         for c in self.registry.get(key, []):
+            if getattr(c, "no_callee", False):
+                continue        # a contract over one type variant of the arguments only (e.g. one-element lists): not usable at an arbitrary call site
             if c.kind == kind or (kind == "function" and c.kind == "function"):
                 return c
         return None
